@@ -104,6 +104,26 @@ def r_shadow(ctx, db, est):
         ft, fi = db.fns[tp], db.fns[ip]
         if ft["arg_count"] != fi["arg_count"]:
             continue
+
+        def forwards(f, target):
+            """the body is a single call of `target` with the function's own parameters, in order, and returns its result"""
+            calls = [b_["term"] for b_ in f["blocks"] if b_["term"].get("k") == "call"]
+            if len(calls) != 1:
+                return False
+            t_ = calls[0]
+            fc = ((t_.get("func") or {}).get("c") or {})
+            fr = fc.get("fnref") or {}
+            if target not in ((fc.get("ty") or {}).get("path"), fr.get("resolved"), fr.get("fn")):
+                return False
+            if any(st_.get("k") == "assign" and st_["rv"].get("k") not in ("use", "ref", "reborrow", "copy", "move", "cast", "aggr", "addr")
+                   for b_ in f["blocks"] for st_ in b_["stmts"]):
+                return False
+            return len(t_.get("args") or []) == f["arg_count"]
+        if forwards(ft, ip) or forwards(fi, tp):
+            n += 1
+            ctx.ob("R-SIB", "inherent-vs-trait:%s" % name, ip, fn_site(db, ip), True,
+                   "one of the inherent `%s` and `<%s as %s>::%s` is a plain forward to the other" % (name, est.name, trait.split("::")[-1], name))
+            continue
         res = {}
         for which, fp, f in (("trait", tp, ft), ("inherent", ip, fi)):
             def setup(m, fp=fp, f=f):
